@@ -1,0 +1,51 @@
+//go:build verif
+
+package s2
+
+// Read-only accessors for the model-based verification of the closest/furthest
+// edge queries (property C08) in /verif (build tag verif only).
+
+// VerifDistanceTarget lets the harness hold any of the exported target types
+// in one variable.
+type VerifDistanceTarget = distanceTarget
+
+// VerifQueryFlags are the decisions the last findEdges call of a query took.
+type VerifQueryFlags struct {
+	UseConservativeCellDistance bool
+	AvoidDuplicates             bool
+	IndexNumEdges               int
+	MaxBruteForceIndexSize      int
+	TestedEdges                 int
+}
+
+// VerifEdgeQueryFlags reads the internal flags of the last call.
+func VerifEdgeQueryFlags(e *EdgeQuery) VerifQueryFlags {
+	f := VerifQueryFlags{
+		UseConservativeCellDistance: e.useConservativeCellDistance,
+		AvoidDuplicates:             e.avoidDuplicates,
+		IndexNumEdges:               e.indexNumEdges,
+		TestedEdges:                 len(e.testedEdges),
+	}
+	if e.target != nil {
+		f.MaxBruteForceIndexSize = e.target.maxBruteForceIndexSize()
+	}
+	return f
+}
+
+// VerifTargetSetUseBruteForce forces the query that a ShapeIndex target runs
+// against its own index to scan every edge.  Reports whether t is such a target.
+func VerifTargetSetUseBruteForce(t VerifDistanceTarget, b bool) bool {
+	switch x := t.(type) {
+	case *MinDistanceToShapeIndexTarget:
+		x.setUseBruteForce(b)
+		return true
+	case *MaxDistanceToShapeIndexTarget:
+		x.setUseBruteForce(b)
+		return true
+	}
+	return false
+}
+
+// VerifTargetCapBound returns the cap the optimized search uses as the bound
+// of the points at distance zero from the target.
+func VerifTargetCapBound(t VerifDistanceTarget) Cap { return t.capBound() }
